@@ -428,6 +428,7 @@ def run(chk, replay=None):
                                     'Lcapy/Model/Formulations.lean', 'Lcapy/Model/Realisations.lean',
                                     'Lcapy/Spec/StateSpace.lean', 'Lcapy/Spec/Laws.lean', 'Lcapy/Driver/C15.lean'],
                       leanchecker=(chk.tier == 'thorough'))
+    import json
     drv = chk.get_driver()
     load()
     extra = os.environ.get('VERIF_EXTRA_FINDINGS')
@@ -507,6 +508,11 @@ def run(chk, replay=None):
             xs = [gq(R.V(n)) for n in nodes]
         except NotExact as e:
             chk.count('degenerate', 'nodal-solution:%s' % e)
+            # error branch: no finite solution is reported (0-ohm resistor …) -- does the model refuse the netlist too?
+            r = drv.ask1(net.model_req('form.nodal x'))
+            chk.count('refusal', 'nodal lcapy:solution-not-finite model:%s' %
+                      ('ill-formed' if r.startswith('error ill-formed') else 'refuses' if r.startswith('error') else
+                       'undefined' if 'undef' in r else 'finite'))
             return
         except Exception as e:   # noqa
             chk.count('lcapy-error', 'solve:%s' % type(e).__name__)
@@ -515,9 +521,13 @@ def run(chk, replay=None):
         model = None if r.startswith('error') or r.startswith('bad') else \
             {p.split(' = ')[0]: parse_form(p.split(' = ')[1]) for p in r.split(' || ')}
         has_k = any(l.startswith('K') for l in net.extra)
+        # `error ill-formed:…` = the shared front-end (Model/Netlist.lean `elaborate`) refuses the netlist (e.g. a 0-ohm
+        # resistor): the model side of the error branch -- the code must print an undefined (zoo) equation there
+        ill_formed = r.startswith('error ill-formed')
+        zoo_seen = [False]
         if model is None:
             chk.count('model', 'nodal:' + r[:40])
-            if r.startswith('error'):
+            if r.startswith('error') and not ill_formed:
                 # the model refuses what the code accepts
                 chk.coverage['correspondence']['compared'] += 1
                 chk.coverage['correspondence']['disagreements'] += 1
@@ -535,6 +545,8 @@ def run(chk, replay=None):
             except NotExact as ex:
                 chk.count('degenerate', 'nodal-equation:%s' % ex)
                 chk.case(('nodal', route, net.key(), node), False)
+                if str(ex) == 'zoo':
+                    zoo_seen[0] = True
                 if str(ex) == 'zoo' and model is not None and node in model:
                     # error branch (0-ohm resistor, inductor at dc): where the code prints zoo the model divides by zero
                     chk.coverage['correspondence']['compared'] += 1
@@ -579,6 +591,13 @@ def run(chk, replay=None):
                     'nodal equation at node %s is not satisfied by the reported node voltages' % node)
             else:
                 chk.count('oracle', 'nodal-holds')
+        if ill_formed:
+            chk.coverage['correspondence']['compared'] += 1
+            chk.count('refusal', 'nodal lcapy:%s model:ill-formed' % ('zoo' if zoo_seen[0] else 'finite'))
+            if not zoo_seen[0]:
+                chk.coverage['correspondence']['disagreements'] += 1
+                disagreements.append({'what': 'nodal equation', 'netlist': net.lines(), 'analysis': net.model_analysis(),
+                                      'lcapy': 'finite equations', 'model': r[:200]})
         # the matrix form A y = b of the nodal equations (na.A, na.b): each row is the printed equation and holds
         if net.analysis != 'time' and forms and len(forms) == len([n_ for n_ in eqs if not n_.startswith('*')]):
             try:
@@ -638,6 +657,10 @@ def run(chk, replay=None):
         cg = la.cg
         loopsec = ' || loops || ' + ' || '.join(' '.join(l) for l in loops)
         cyc = drv.ask1(net.model_req('form.cycles x', loopsec))
+        if cyc.startswith(('error', 'bad')):
+            # the model refuses the netlist (ill-formed value, unsupported line): outside the model, never a counterexample
+            chk.count('degenerate', 'mesh-model-refuses:' + cyc[:40])
+            return
         if cyc.split() != ['true'] * len(loops):
             chk.count('loops', 'not-simple-cycle')
             cex({'formulation': 'mesh', 'defect': 'loop-not-simple-cycle'},
@@ -663,7 +686,10 @@ def run(chk, replay=None):
         replies = {}
         for variant in MESH_VARIANTS:
             r = drv.ask1(net.model_req('form.mesh %s' % variant, loopsec))
-            replies[variant] = [None if p.startswith('error') or p.startswith('bad') else parse_form(p) for p in r.split(' || ')]
+            parts = r.split(' || ')
+            if len(parts) != len(loops):
+                parts = ['error'] * len(loops)
+            replies[variant] = [None if p.startswith('error') or p.startswith('bad') else parse_form(p) for p in parts]
         # mesh currents that represent the reported branch currents: traverse the graph edges
         rows, rhs, names = [], [], []
         has_dummy = any(n.startswith('*') for l in loops for n in l)
@@ -1027,6 +1053,34 @@ def run(chk, replay=None):
             diff = {k: (real.get(k), mod.get(k)) for k in sorted(set(real) | set(mod)) if real.get(k) != mod.get(k)}
             disagreements.append({'what': 'state-space model', 'netlist': net.lines(), 'differs (lcapy, model)': dict(list(diff.items())[:8])})
 
+    def check_eigenvalues(ss, n, A, formulation, inp):
+        """ss.eigenvalues is the list of the natural frequencies WITH multiplicity: it has one entry per state and
+        prod (s0 - lambda_i) is the characteristic polynomial det(s0 I - A) (judged by the driver) at a rational point"""
+        if n > (3 if quick else 4):
+            return
+        try:
+            evl = [sym.sympify(v.sympy if hasattr(v, 'sympy') else v) for v in ss.eigenvalues]
+            s0 = Fraction(rng.randint(2, 30), rng.randint(1, 7))
+            prod = sym.Integer(1)
+            for ev in evl:
+                prod = prod * (srat(s0) - ev)
+            pq = gq(sym.simplify(sym.expand(prod)))
+            d = drv.ask1('ss.det || %d || %s || %s' % (n, ' '.join(A), fstr(s0)))
+        except NotExact:
+            chk.count('degenerate', 'eigenvalues-not-exact')
+            return
+        except Exception as e:   # noqa
+            chk.count('lcapy-error', 'eigenvalues:%s:%s' % (type(e).__name__, str(e)[:40]))
+            return
+        chk.case(('eigenvalues', formulation, json.dumps(inp, sort_keys=True, default=str)), True)
+        if len(evl) != n or pq != d:
+            cex({'formulation': formulation, 'defect': 'eigenvalues'},
+                {'input': inp, 'A': A, 'eigenvalues': [str(v) for v in evl], 'prod(s0 - lambda)': pq, 'det(s0 I - A)': d,
+                 's0': fstr(s0), 'spec': 'the eigenvalue list has one entry per state and prod (s - lambda_i) = det(sI - A)'},
+                'ss.eigenvalues (with multiplicity) does not reproduce the characteristic polynomial')
+        else:
+            chk.count('oracle', 'eigenvalues-with-multiplicity' + ('-repeated' if len(set(evl)) < len(evl) else ''))
+
     def check_ss_circuit(net):
         chk.count('formulation', 'state-space-circuit')
         try:
@@ -1097,6 +1151,7 @@ def run(chk, replay=None):
                     chk.count('model', 'ss-singular:' + r[:30])
         except Exception as e:   # noqa
             chk.count('lcapy-error', 'ss-eig:%s' % type(e).__name__)
+        check_eigenvalues(ss, n, A, 'ss-circuit', {'netlist': net.lines(), 's': fstr(net.point)})
         # characteristic polynomial = det(sI - A); G = C (sI-A)^-1 B + D
         try:
             P = gq(sval(ss.P, subs))
@@ -1131,6 +1186,20 @@ def run(chk, replay=None):
         inp = rep.get('input') or {}
         if (rep.get('key') or {}).get('formulation') == 'ss-circuit' and 'netlist' in inp:
             check_ss_circuit(net_from_lines(inp['netlist'], 'lap', inp.get('s', '1')))
+    if rep is None:
+        # repeated natural frequencies: critically damped series RLC (R = 2 sqrt(L/C)), two identical buffered RC sections
+        for _ in range(2 if quick else 8):
+            kq = rng.randint(1, 4)
+            cv = Fraction(1, rng.randint(1, 3))
+            check_ss_circuit(Net([('V1', 'V', 1, 0, Fraction(rng.randint(1, 5)), None, 'step'),
+                                  ('R1', 'R', 1, 2, Fraction(2 * kq), None, None),
+                                  ('L1', 'L', 2, 3, Fraction(kq * kq) * cv, None, None),
+                                  ('C1', 'C', 3, 0, cv, None, None)], 'lap', Fraction(rng.randint(1, 9), rng.randint(1, 5))))
+            rv, cv2 = Fraction(rng.randint(1, 5)), Fraction(1, rng.randint(1, 4))
+            check_ss_circuit(Net([('V1', 'V', 1, 0, Fraction(rng.randint(1, 5)), None, 'step'), ('R1', 'R', 1, 2, rv, None, None),
+                                  ('C1', 'C', 2, 0, cv2, None, None), ('R2', 'R', 3, 4, rv, None, None),
+                                  ('C2', 'C', 4, 0, cv2, None, None)], 'lap', Fraction(rng.randint(1, 9), rng.randint(1, 5)),
+                                 ['E1 3 0 2 0 1']))
     while done < n_ss and tries < 4 * n_ss:
         tries += 1
         net = gen_net(rng, 'lap', allow_I=(tries % 3 == 0), allow_ic=True, max_nodes=3, parallel_ok=(tries % 4 == 1),
@@ -1250,6 +1319,8 @@ def run(chk, replay=None):
                     disagreements.append({'what': 'realisation DCF', 'input': inp, 'lcapy': mine, 'model': r})
             except NotExact:
                 chk.count('degenerate', 'dcf-poles-not-exact')
+        if not symbolic:
+            check_eigenvalues(ss, n, A, 'ss-tf', inp)
         # oracle: Spec predicate Realises at sample points (judged by Lean, on Lcapy's matrices)
         npts = 2 if quick else 3
         for k in range(npts):
@@ -1309,6 +1380,13 @@ def run(chk, replay=None):
                 b = rand_coeffs(nb)
                 for form in ('CCF', 'OCF'):
                     check_tf(dom, form, [srat(v) for v in b], [srat(v) for v in a], 'numeric')
+                if 2 <= deg <= 4 and rep == 0:
+                    # a repeated pole: the eigenvalue list must carry the multiplicity
+                    rr = sym.Rational(rng.randint(-6, 6), rng.choice([1, 2]))
+                    rts = [rr, rr] + [sym.Rational(rng.randint(-9, 9), 1) for _ in range(deg - 2)]
+                    arep = [sym.expand(c) for c in poly_from_roots(rts)]
+                    for form in ('CCF', 'OCF'):
+                        check_tf(dom, form, [srat(v) for v in b], arep, 'repeated-pole')
                 # raw coefficient lists: non-monic denominator (leading coefficient never 1), every second one bi-proper
                 al = list(a)
                 if al[0] == 1:
